@@ -62,6 +62,11 @@ pub struct Interpreter<TStdlib: Stdlib, TStdIn: Input, TStdOut: Printer, TLpt1: 
     /// must not leave its register frames and GOSUB addresses behind
     return_marks: Vec<(usize, usize)>,
 
+    /// For every return address, the state of the PRINT statement the call
+    /// interrupted (device, format string, pending separator): a PRINT executed
+    /// by the callee must not redirect or reformat the rest of the caller's
+    saved_print_states: Vec<PrintState>,
+
     /// Holds addresses to RETURN to after a GOSUB
     go_sub_address_stack: Vec<usize>,
 
@@ -285,6 +290,7 @@ impl<TStdlib: Stdlib, TStdIn: Input, TStdOut: Printer, TLpt1: Printer>
             context: Context::new(),
             return_address_stack: vec![],
             return_marks: vec![],
+            saved_print_states: vec![],
             go_sub_address_stack: vec![],
             register_stack: vec![Registers::new()],
             stacktrace: vec![],
@@ -472,12 +478,16 @@ impl<TStdlib: Stdlib, TStdIn: Input, TStdOut: Printer, TLpt1: Printer>
                 self.return_address_stack.push(*address);
                 self.return_marks
                     .push((self.register_stack.len(), self.go_sub_address_stack.len()));
+                self.saved_print_states.push(self.print_state.clone());
             }
             Instruction::PopRet => {
                 let address = self.return_address_stack.pop().unwrap();
                 if let Some((registers, go_subs)) = self.return_marks.pop() {
                     self.register_stack.truncate(registers);
                     self.go_sub_address_stack.truncate(go_subs);
+                }
+                if let Some(print_state) = self.saved_print_states.pop() {
+                    self.print_state = print_state;
                 }
                 ctx.opt_next_index = Some(address);
             }
@@ -525,6 +535,7 @@ impl<TStdlib: Stdlib, TStdIn: Input, TStdOut: Printer, TLpt1: Printer>
                     self.go_sub_address_stack.truncate(go_subs);
                 }
                 self.return_marks.clear();
+                self.saved_print_states.clear();
             }
             Instruction::Throw(interpreter_error) => {
                 return Err(interpreter_error.clone()).with_err_at(&pos);
